@@ -203,6 +203,9 @@ func init() {
 		return ex.tc.Bool(strings.Contains(cstr(a[0]), cstr(a[1]))), false
 	}
 	I["strings.ToLower"] = func(ex *Exec, th *Thread, fn *ssa.Function, a []Value) (Value, bool) {
+		if sv, ok := a[0].(strV); ok && sv.ite != nil {
+			return strV{ite: &strIte{c: sv.ite.c, a: strings.ToLower(sv.ite.a), b: strings.ToLower(sv.ite.b)}}, false
+		}
 		if sv, ok := a[0].(strV); ok && sv.sym != nil {
 			for _, p := range sv.sym {
 				if p.num == nil && strings.ToLower(p.lit) != p.lit {
@@ -214,15 +217,38 @@ func init() {
 		return strV{s: strings.ToLower(cstr(a[0]))}, false
 	}
 	I["strings.ToUpper"] = func(ex *Exec, th *Thread, fn *ssa.Function, a []Value) (Value, bool) {
+		if sv, ok := a[0].(strV); ok && sv.ite != nil {
+			return strV{ite: &strIte{c: sv.ite.c, a: strings.ToUpper(sv.ite.a), b: strings.ToUpper(sv.ite.b)}}, false
+		}
 		return strV{s: strings.ToUpper(cstr(a[0]))}, false
 	}
+	// a two-valued symbolic string (verifIteString) is mapped alternative by alternative
+	liftIte := func(v Value, f func(string) string) (Value, bool) {
+		if sv, ok := v.(strV); ok && sv.ite != nil {
+			na, nb := f(sv.ite.a), f(sv.ite.b)
+			if na == nb {
+				return strV{s: na}, true
+			}
+			return strV{ite: &strIte{c: sv.ite.c, a: na, b: nb}}, true
+		}
+		return nil, false
+	}
 	I["strings.TrimSpace"] = func(ex *Exec, th *Thread, fn *ssa.Function, a []Value) (Value, bool) {
+		if v, ok := liftIte(a[0], strings.TrimSpace); ok {
+			return v, false
+		}
 		return strV{s: strings.TrimSpace(cstr(a[0]))}, false
 	}
 	I["strings.TrimPrefix"] = func(ex *Exec, th *Thread, fn *ssa.Function, a []Value) (Value, bool) {
+		if v, ok := liftIte(a[0], func(x string) string { return strings.TrimPrefix(x, cstr(a[1])) }); ok {
+			return v, false
+		}
 		return strV{s: strings.TrimPrefix(cstr(a[0]), cstr(a[1]))}, false
 	}
 	I["strings.TrimSuffix"] = func(ex *Exec, th *Thread, fn *ssa.Function, a []Value) (Value, bool) {
+		if v, ok := liftIte(a[0], func(x string) string { return strings.TrimSuffix(x, cstr(a[1])) }); ok {
+			return v, false
+		}
 		return strV{s: strings.TrimSuffix(cstr(a[0]), cstr(a[1]))}, false
 	}
 	I["strings.Index"] = func(ex *Exec, th *Thread, fn *ssa.Function, a []Value) (Value, bool) {
